@@ -321,6 +321,13 @@ func TestC01(t *testing.T) {
 	defer env.Close()
 
 	// deterministic sweep: every method x every formatter once with fixed mid-range arguments
+	rec.Regress(t, func(raw json.RawMessage) *Violation {
+		var c c01Case
+		if json.Unmarshal(raw, &c) != nil {
+			return nil
+		}
+		return env.run(c)
+	})
 	t.Run("grid", func(t *testing.T) {
 		fixed := map[string]string{"I64": "-42", "U64": "42", "F64": "2.5", "Str": `"s<>"`, "Bool": "true", "Bytes": `"AQI="`, "Ints": "[1,2]", "MapSS": `{"k":"v"}`,
 			"PInner": `{"n":1,"p":null}`, "Outer": `{"e1":1,"E2":null,"id":2,"renamed":"n","in":{"n":0,"p":null},"m":null,"b":null,"f":0,"i":null}`, "Raw": `{"a":[1]}`, "Hex": `"0x0102"`, "Any": `{"x":[1,"y"]}`, "Opaque": "tag", "RawParams": `[1,"two"]`}
